@@ -272,6 +272,8 @@ export class Ref {
     }
     const flat = ms.flatMap((m) => (m.c === "inter" ? m.ts.map((x) => this.env.resolve(x)) : [m]));
     if (flat.some((m) => m.c === "union" || m.c === "inter")) return and(d, U);
+    // a member that is any / unknown declares every key at every depth: nothing can be undeclared
+    if (flat.some((m) => m.c === "any")) return d;
     if (flat.every((m) => m.c !== "obj" && m.c !== "anyobj")) {
       let r = Y;
       for (const m of flat) r = and(r, this.member(m, v, true));
@@ -285,13 +287,33 @@ export class Ref {
         if (index) return and(d, U);
         index = m.index;
       }
+    }
+    // a key that one member declares by name and another member admits through its index signature
+    // has both types (TypeScript: the property type of an intersection is the intersection of what
+    // each constituent gives for that key, an index signature included)
+    const viaIndex = (m, name) => {
+      if (!m.index || m.props.some((q) => q.name === name)) return null;
+      const km = this.keyMember(m.index.key, name);
+      if (km === N) return null;
+      if (km !== Y) return "U";
+      return m.index.opt ? { c: "union", ts: [m.index.val, { c: "nullish" }] } : m.index.val;
+    };
+    for (const m of flat) {
       for (const p of m.props) {
         const e = props.get(p.name);
         // a member that declares the key optional accepts null / undefined there (memberObj's rule);
         // that must survive when another member makes the merged key required
         const pt = p.opt ? { c: "union", ts: [p.t, { c: "nullish" }] } : p.t;
-        if (!e) props.set(p.name, { name: p.name, ts: [pt], opt: p.opt });
-        else {
+        if (!e) {
+          const ts = [pt];
+          for (const o of flat) {
+            if (o === m) continue;
+            const x = viaIndex(o, p.name);
+            if (x === "U") return and(d, U);
+            if (x) ts.push(x);
+          }
+          props.set(p.name, { name: p.name, ts, opt: p.opt });
+        } else {
           e.ts.push(pt);
           e.opt = e.opt && p.opt;
         }
